@@ -372,8 +372,10 @@ package cgroup
 // OpenExisting on the v1 hierarchy: success means a handle (marked existing, so that Destroy never removes
 // the group it was opened on)
 //@ func pkg/cgroup.loopV1Controllers
-//@   assumed "calls f for each requested controller (callback verified on its own: newV1$2)"
-//@   pure
+//@   assumed "calls f for each requested controller; its effects are those of the callbacks, which are verified on their own (newV1$2, openExistingV1$1): they fill the handle's controller slots and `all`, may set - never clear - `existing`, and create directories"
+//@   assigns v1.cpu, v1.cpuset, v1.cpuacct, v1.memory, v1.pids, v1.all, v1.existing, G.made
+//@   ensures old(v1.existing) ==> v1.existing
+//@   ensures len(old(v1.all)) == 0 ==> forall k int :: 0 <= k && k < len(v1.all) ==> v1.all[k] != nil
 //@ func pkg/cgroup.openExistingV1 props C20
 //@   arith int
 //@   requires ct != nil
@@ -457,4 +459,13 @@ package cgroup
 //@   assigns deref(cg), v1.all
 //@   ensures len(v1.all) == old(len(v1.all)) || len(v1.all) == old(len(v1.all)) + 1
 //@   ensures result != nil ==> len(v1.all) == old(len(v1.all))
+//@   ensures len(v1.all) > old(len(v1.all)) ==> v1.all[len(v1.all)-1] != nil
 //@   ensures v1.existing == old(v1.existing)
+
+// cgroup.New on the v1 hierarchy: success means a handle
+//@ func pkg/cgroup.newV1 props C20
+//@   arith int
+//@   requires ct != nil
+//@   assume os.ErrExist != nil
+//@   assigns G.made, G.rmdir
+//@   ensures err == nil ==> cg != nil && ref_as(cg, V1) != nil
